@@ -20,9 +20,14 @@ extern "C" void h_isCyclic() {
   bool r = dtype_t::isCyclic(v, cycleLength);
 #ifndef CANARY
   /* functional contract: true iff the vector is the repetition of its first cycleLength entries */
-  bool periodic = (cycleLength > 0) && (v.n % cycleLength == 0);
-  if (periodic) for (int j = 0; j < VERIF_FLAT; ++j) if ((size_t) j < v.n && v.a[j] != v.a[j % cycleLength]) periodic = false;
-  __CPROVER_assert(r == periodic, "isCyclic: true exactly when the vector repeats its first cycleLength entries");
+  if (cycleLength > 0) {
+    bool periodic = (v.n % cycleLength == 0);
+    if (periodic) for (int j = 0; j < VERIF_FLAT; ++j) if ((size_t) j < v.n && v.a[j] != v.a[j % cycleLength]) periodic = false;
+    __CPROVER_assert(r == periodic, "isCyclic: true exactly when the vector repeats its first cycleLength entries");
+  } else {
+    /* a type without entries (zero-length tuple) against a type with entries: the call must return, and not with "castable" */
+    __CPROVER_assert(!r, "isCyclic: a zero cycle length is not a cycle of a non-empty vector");
+  }
 #else
   __CPROVER_assert(!(r && v.n == VERIF_FLAT), "canary: a cyclic vector of full length is reachable");
 #endif
